@@ -94,6 +94,9 @@ RES = [
      "mut": {1: "testing.fixed_access_rate(100)", 2: "testing.fixed_access_rate(7)"},
      "obs": {v: 'set req.http.rate = ratecounter.rc_a.rate.10s;\n  assert.equal(req.http.rate, "%s")' % t
              for v, t in {0: "0.000", 1: "100.000", 2: "7.000"}.items()}},
+    {"name": "ratelimit.penaltybox_add",
+     "mut": {1: 'ratelimit.penaltybox_add(pb_a, "cli", 10m)'},
+     "obs": {0: 'assert.false(ratelimit.penaltybox_has(pb_a, "cli"))', 1: 'assert.true(ratelimit.penaltybox_has(pb_a, "cli"))'}},
     {"name": "set req.backend",
      "mut": {1: "set req.backend = B_g", 0: "set req.backend = B_h"},
      "obs": {0: "assert.equal(req.backend, B_h)", 1: "assert.equal(req.backend, B_g)"}},
@@ -103,6 +106,7 @@ MAIN_DECLS = """backend B_h { .host = "127.0.0.1"; .port = "80"; }
 backend B_g { .host = "127.0.0.2"; .port = "80"; }
 table tbl STRING { "k0": "v0", }
 ratecounter rc_a { }
+penaltybox pb_a { }
 sub s_m {
   set req.http.mocked = "real";
 }
@@ -128,7 +132,17 @@ class Suite:
     def __init__(self):
         self.subs = []      # (k, block)
         self.tests = []
+        self.groups = []    # dict(name, before={scope: steps}, after={scope: steps}, tests=[index into self.tests])
         self.stats = {}
+
+    def items(self):
+        """the items of the test file in their default order: ('t', test index) | ('g', group index)"""
+        grouped = set(ti for g in self.groups for ti in g["tests"])
+        out = [("t", ti) for ti in range(len(self.tests)) if ti not in grouped]
+        # groups are spread between the ungrouped tests
+        for gi, g in enumerate(self.groups):
+            out.insert(min(len(out), 1 + 2 * gi), ("g", gi))
+        return out
 
     # ------------------------------------------------------------ VCL
     @staticmethod
@@ -206,35 +220,57 @@ class Suite:
         out.append("sub vcl_recv {\n  #FASTLY recv\n  return (lookup);\n}")
         return "\n".join(out) + "\n"
 
+    def step_lines(self, steps, ind):
+        out = []
+        p = "  " * ind
+        for s in steps:
+            k = s[0]
+            if k == "set":
+                out.append(p + 'set req.http.f%d = "1";' % s[1])
+            elif k == "unset":
+                out.append(p + "unset req.http.f%d;" % s[1])
+            elif k == "log":
+                out.append(p + 'log "t%d";' % s[1])
+            elif k == "call":
+                out.append(p + ('testing.call_subroutine("s%d");' % s[1] if s[2] else "call s%d;" % s[1]))
+            elif k == "raise":
+                out.append(p + 'set var.nope = "1";')
+            elif k == "af":
+                out.append(p + ('assert.equal(req.http.f%d, "1");' % s[1] if s[2] else "assert.is_notset(req.http.f%d);" % s[1]))
+            elif k == "ac":
+                out.append(p + (s[3] if len(s) > 3 else ASSERTS[s[1]][0 if s[2] else 1]) + ";")
+            elif k == "res":
+                out.append(p + (s[3] if len(s) > 3 else RES[s[1]]["mut"][s[2]]) + ";")
+            elif k == "ar":
+                out.append(p + RES[s[1]]["obs"][s[2]].replace("\n  ", "\n" + p) + ";")
+        return out
+
+    def test_lines(self, t, ind):
+        p = "  " * ind
+        out = [p + "// @scope: " + ", ".join(t["scopes"]), p + "// @suite: T%d" % t["name"]]
+        if t["skip"]:
+            out.append(p + "// @skip")
+        out.append(p + "sub test_%d {" % t["name"])
+        out += self.step_lines(t["steps"], ind + 1)
+        out.append(p + "}")
+        return out
+
     def test_vcl(self, order):
+        """order: a list of items ('t', i) / ('g', i)"""
         out = [TEST_DECLS.rstrip("\n")]
-        for ti in order:
-            t = self.tests[ti]
-            out.append("// @scope: " + ", ".join(t["scopes"]))
-            out.append("// @suite: T%d" % t["name"])
-            if t["skip"]:
-                out.append("// @skip")
-            out.append("sub test_%d {" % t["name"])
-            for s in t["steps"]:
-                k = s[0]
-                if k == "set":
-                    out.append('  set req.http.f%d = "1";' % s[1])
-                elif k == "unset":
-                    out.append("  unset req.http.f%d;" % s[1])
-                elif k == "log":
-                    out.append('  log "t%d";' % s[1])
-                elif k == "call":
-                    out.append('  testing.call_subroutine("s%d");' % s[1] if s[2] else "  call s%d;" % s[1])
-                elif k == "raise":
-                    out.append('  set var.nope = "1";')
-                elif k == "af":
-                    out.append('  assert.equal(req.http.f%d, "1");' % s[1] if s[2] else "  assert.is_notset(req.http.f%d);" % s[1])
-                elif k == "ac":
-                    out.append("  " + (s[3] if len(s) > 3 else ASSERTS[s[1]][0 if s[2] else 1]) + ";")
-                elif k == "res":
-                    out.append("  " + (s[3] if len(s) > 3 else RES[s[1]]["mut"][s[2]]) + ";")
-                elif k == "ar":
-                    out.append("  " + RES[s[1]]["obs"][s[2]] + ";")
+        for kind, i in order:
+            if kind == "t":
+                out += self.test_lines(self.tests[i], 0)
+                continue
+            g = self.groups[i]
+            out.append("describe G%d {" % g["name"])
+            for which in ("before", "after"):
+                for sc, steps in sorted(g[which].items()):
+                    out.append("  %s_%s {" % (which, sc))
+                    out += self.step_lines(steps, 2)
+                    out.append("  }")
+            for ti in g["tests"]:
+                out += self.test_lines(self.tests[ti], 1)
             out.append("}")
         return "\n".join(out) + "\n" + AUX_TESTS
 
@@ -271,30 +307,43 @@ class Suite:
                 "".join(" (case %d %s)" % (int(ft), self.bsexp(b)) for ft, b in s[4]))
         raise ValueError(k)
 
+    @staticmethod
+    def steps_sexp(steps):
+        out = []
+        for s in steps:
+            if s[0] in ("set", "unset", "log"):
+                out.append("(%s %d)" % (s[0], s[1] + (1000 if s[0] == "log" else 0)))
+            elif s[0] == "call":
+                out.append("(call %d)" % s[1])
+            elif s[0] == "raise":
+                out.append("(raise)")
+            elif s[0] == "af":
+                out.append("(af %d %d)" % (s[1], int(s[2])))
+            elif s[0] == "ac":
+                out.append("(ac %d)" % int(s[2]))
+            elif s[0] == "res":
+                out.append("(res %d %d)" % (s[1], s[2]))
+            elif s[0] == "ar":
+                out.append("(ar %d %d)" % (s[1], s[2]))
+        return " ".join(out)
+
+    def test_sexp(self, t):
+        return "(test %d (%s) %d (%s))" % (t["name"], " ".join(str(SCOPES.index(x)) for x in t["scopes"]), int(t["skip"]),
+                                           self.steps_sexp(t["steps"]))
+
     def model_request(self, cov, order):
         subs = "".join(" (sub %d %s)" % (k, self.bsexp(b)) for k, b in self.subs)
-        tests = []
-        for ti in order:
-            t = self.tests[ti]
-            steps = []
-            for s in t["steps"]:
-                if s[0] in ("set", "unset", "log"):
-                    steps.append("(%s %d)" % (s[0], s[1] + (1000 if s[0] == "log" else 0)))
-                elif s[0] == "call":
-                    steps.append("(call %d)" % s[1])
-                elif s[0] == "raise":
-                    steps.append("(raise)")
-                elif s[0] == "af":
-                    steps.append("(af %d %d)" % (s[1], int(s[2])))
-                elif s[0] == "ac":
-                    steps.append("(ac %d)" % int(s[2]))
-                elif s[0] == "res":
-                    steps.append("(res %d %d)" % (s[1], s[2]))
-                elif s[0] == "ar":
-                    steps.append("(ar %d %d)" % (s[1], s[2]))
-            tests.append("(test %d %d %d (%s))" % (t["name"], len(t["scopes"]), int(t["skip"]), " ".join(steps)))
-        tests += ["(test 9001 1 0 ())", "(test 9002 1 0 ())"]
-        return "run %d (subs%s) (tests %s)" % (int(cov), subs, " ".join(tests))
+        items = []
+        for kind, i in order:
+            if kind == "t":
+                items.append("(single %s)" % self.test_sexp(self.tests[i]))
+            else:
+                g = self.groups[i]
+                hooks = lambda d: "".join(" (%d (%s))" % (SCOPES.index(sc), self.steps_sexp(st)) for sc, st in sorted(d.items()))
+                items.append("(group %d (before%s) (after%s) %s)" % (g["name"], hooks(g["before"]), hooks(g["after"]),
+                                                                     " ".join(self.test_sexp(self.tests[ti]) for ti in g["tests"])))
+        items += ["(single (test 9001 (0) 0 ()))", "(single (test 9002 (0) 0 ()))"]
+        return "run %d (subs%s) (items %s)" % (int(cov), subs, " ".join(items))
 
     @staticmethod
     def log_text(m):
@@ -371,69 +420,96 @@ def sim_block(b, fl, logs):
     return True
 
 
+class Abort(Exception):
+    pass
+
+
+def sim_steps(suite, steps, fl, rs, logs):
+    """-> (verdict, number of assertions that held); mutates fl / rs / logs"""
+    p = 0
+    for s in steps:
+        k = s[0]
+        try:
+            if k == "set":
+                fl.add(s[1])
+            elif k == "unset":
+                fl.discard(s[1])
+            elif k == "log":
+                logs.append(1000 + s[1])
+            elif k == "call":
+                sim_block(suite.subs[s[1]][1], fl, logs)
+            elif k == "raise":
+                raise Raise()
+            elif k == "af":
+                if (s[1] in fl) == s[2]:
+                    p += 1
+                else:
+                    return "assert", p
+            elif k == "ac":
+                if s[2]:
+                    p += 1
+                else:
+                    return "assert", p
+            elif k == "res":
+                rs[s[1]] = s[2]
+            elif k == "ar":
+                if rs.get(s[1], 0) == s[2]:
+                    p += 1
+                else:
+                    return "assert", p
+        except Raise:
+            return "runtime", p
+    return "pass", p
+
+
 def simulate(suite, order):
-    """-> (cases [(name, scope, skip, verdict, logs)], counter (asserts, passes, fails, skips), exit)"""
+    """-> (cases [(group, name, scope, skip, verdict, logs)], counter (asserts, passes, fails, skips), exit),
+    or None when a hook of a group raises (the run fails as a whole)"""
     cases = []
-    a = p = f = sk = 0
-    for ti in order:
-        t = suite.tests[ti]
-        fl = set()                                  # a fresh interpreter per test subroutine
-        rs = {}
+    cnt = {"a": 0, "p": 0, "f": 0, "sk": 0}
+
+    def run_test(t, fl, rs, group):
         for sc in t["scopes"]:
             if t["skip"]:
-                cases.append((t["name"], sc, True, "pass", []))
-                sk += 1
+                cases.append((None, t["name"], sc, True, "pass", []))      # a skipped case carries no group
+                cnt["sk"] += 1
                 continue
             logs = []
-            verdict = "pass"
-            for s in t["steps"]:
-                k = s[0]
-                try:
-                    if k == "set":
-                        fl.add(s[1])
-                    elif k == "unset":
-                        fl.discard(s[1])
-                    elif k == "log":
-                        logs.append(1000 + s[1])
-                    elif k == "call":
-                        sim_block(suite.subs[s[1]][1], fl, logs)
-                    elif k == "raise":
-                        raise Raise()
-                    elif k == "af":
-                        if (s[1] in fl) == s[2]:
-                            p += 1
-                            a += 1
-                        else:
-                            verdict = "assert"
-                            break
-                    elif k == "ac":
-                        if s[2]:
-                            p += 1
-                            a += 1
-                        else:
-                            verdict = "assert"
-                            break
-                    elif k == "res":
-                        rs[s[1]] = s[2]
-                    elif k == "ar":
-                        if rs.get(s[1], 0) == s[2]:
-                            p += 1
-                            a += 1
-                        else:
-                            verdict = "assert"
-                            break
-                except Raise:
-                    verdict = "runtime"
-                    break
+            if group is not None and sc in group["before"]:
+                v, p = sim_steps(suite, group["before"][sc], fl, rs, logs)
+                if v != "pass":
+                    raise Abort()
+                cnt["p"] += p
+                cnt["a"] += p
+            verdict, p = sim_steps(suite, t["steps"], fl, rs, logs)
+            cnt["p"] += p
+            cnt["a"] += p
             if verdict == "assert":
-                f += 2
-                a += 2
+                cnt["f"] += 2
+                cnt["a"] += 2
             elif verdict == "runtime":
-                f += 1
-                a += 1
-            cases.append((t["name"], sc, False, verdict, logs))
-    cases += [(9001, "recv", False, "pass", []), (9002, "recv", False, "pass", [])]
-    return cases, (a, p, f, sk), (1 if f > 0 else 0)
+                cnt["f"] += 1
+                cnt["a"] += 1
+            cases.append((None if group is None else group["name"], t["name"], sc, False, verdict, list(logs)))
+            if group is not None and sc in group["after"]:
+                v, p = sim_steps(suite, group["after"][sc], fl, rs, [])     # its log lines come too late
+                if v != "pass":
+                    raise Abort()
+                cnt["p"] += p
+                cnt["a"] += p
+    try:
+        for kind, i in order:
+            if kind == "t":
+                run_test(suite.tests[i], set(), {}, None)       # a fresh interpreter per ungrouped test subroutine
+            else:
+                g = suite.groups[i]
+                fl, rs = set(), {}                              # one interpreter for the whole group
+                for ti in g["tests"]:
+                    run_test(suite.tests[ti], fl, rs, g)
+    except Abort:
+        return None
+    cases += [(None, 9001, "recv", False, "pass", []), (None, 9002, "recv", False, "pass", [])]
+    return cases, (cnt["a"], cnt["p"], cnt["f"], cnt["sk"]), (1 if cnt["f"] > 0 else 0)
 
 
 class TestRunGen:
@@ -513,12 +589,12 @@ class TestRunGen:
         self._c("main:block")
         return ("block", self.block(d + 1))
 
-    def steps(self, expect, subs):
+    def steps(self, expect, subs, fl=None):
         """expect: 'pass' | 'assert' | 'runtime' - the verdict the steps are built to have in the first
         scope (the generator follows the state with its own evaluator, see simulate_*)"""
         r = self.r
         out = []
-        fl = set()
+        fl = set() if fl is None else fl
         n = r.randint(2, 7)
         bad_at = r.randrange(n) if expect != "pass" else None
         for i in range(n):
@@ -566,12 +642,12 @@ class TestRunGen:
                 out.append(("ac", kind, True))
         return out
 
-    def res_steps(self, hot, single_scope):
+    def res_steps(self, hot, single_scope, cur=None):
         """mutate and observe the hot resources: every observation holds by construction in the first scope
         (later scopes start from the state the earlier ones left: the evaluator knows)"""
         r = self.r
         out = []
-        cur = {}
+        cur = {} if cur is None else cur
         for _ in range(r.randint(2, 6)):
             x = r.choice(hot)
             k = r.random()
@@ -626,6 +702,77 @@ class TestRunGen:
             steps = [("res", x, v) for v in seq] + [("ar", x, seq[-1] if seq else 0), ("log", n)]
             s.tests.append({"name": n, "scopes": ["recv"], "skip": False, "steps": steps, "expect": "pass"})
         self._c("resource-suite:" + RES[x]["name"])
+        return s
+
+    def hook_steps(self, subs, fl):
+        r = self.r
+        out = []
+        for _ in range(r.randint(1, 3)):
+            k = r.random()
+            if k < 0.35:
+                f = r.randrange(NFLAGS)
+                fl.add(f)
+                out.append(("set", f))
+            elif k < 0.55:
+                f = r.randrange(NFLAGS)
+                fl.discard(f)
+                out.append(("unset", f))
+            elif k < 0.8:
+                out.append(("log", 500 + r.randrange(50)))
+            elif k < 0.97 or not subs:
+                x = r.randrange(len(RES))
+                out.append(("res", x, r.choice(sorted(RES[x]["mut"]))))
+            else:
+                out.append(("raise",))          # a raising hook fails the whole run
+                self._c("group:raising-hook")
+        return out
+
+    def grouped_suite(self):
+        """ungrouped tests and describe groups with before_/after_ hooks: inside a group the tests share
+        one interpreter (the generator follows the state through the group in its written order)"""
+        r = self.r
+        s = Suite()
+        self.nlog = 0
+        self.nsubs = r.randint(1, 2)
+        for k in range(self.nsubs):
+            s.subs.append((k, self.block(0, r.randint(1, 3))))
+        n = 0
+        for _ in range(r.randint(1, 3)):                       # ungrouped tests
+            e = r.choice(["pass", "pass", "assert", "runtime"])
+            s.tests.append({"name": n, "scopes": r.sample(RES_SCOPES, r.choice([1, 1, 2])), "skip": r.random() < 0.1,
+                            "steps": self.steps(e, s.subs), "expect": e})
+            n += 1
+        for gi in range(r.choice([1, 1, 2])):
+            scs = r.sample(RES_SCOPES, r.choice([1, 2]))
+            g = {"name": gi + 1, "before": {}, "after": {}, "tests": []}
+            fl = set()
+            cur = {}
+            hot = r.sample(range(len(RES)), 2)
+            for sc in scs:
+                if r.random() < 0.6:
+                    g["before"][sc] = self.hook_steps(s.subs, set())
+                if r.random() < 0.5:
+                    g["after"][sc] = self.hook_steps(s.subs, set())
+            for _ in range(r.randint(2, 4)):
+                e = r.choice(["pass", "pass", "pass", "assert", "runtime"])
+                if r.random() < 0.45:
+                    # the per-test helper state is shared inside the group as well (tables, mocks, injected variables ...)
+                    st = self.res_steps(hot, len(scs) == 1, cur)
+                    self._c("group:helper-state-test")
+                else:
+                    st = self.steps(e, s.subs, fl=set(fl)) if not (g["before"] or g["after"]) else self.steps(e, s.subs)
+                t = {"name": n, "scopes": r.sample(scs, r.randint(1, len(scs))), "skip": r.random() < 0.1, "steps": st, "expect": e}
+                for x in st:
+                    if x[0] == "set":
+                        fl.add(x[1])
+                    elif x[0] == "unset":
+                        fl.discard(x[1])
+                g["tests"].append(len(s.tests))
+                s.tests.append(t)
+                n += 1
+                self._c("group:test")
+            s.groups.append(g)
+            self._c("group")
         return s
 
     def kinds_suite(self):
